@@ -25,5 +25,19 @@ meta = dict(
         demo_exit_changed_tree=grab("demo_changed_exit"), check_exit=grab("check_exit"), check_output=lines[:5]),
     caught=(grab("check_exit") == "1"),
 )
+hist = sys.argv[3] if len(sys.argv) > 3 else None
+try:
+    old = json.load(open(f"{dst}/meta.json"))
+except Exception:
+    old = {}
+for k in ("history", "caught_by"):
+    if k in old:
+        meta[k] = old[k]
+if old and old.get("caught") is False and meta["caught"]:
+    first = [l for l in old.get("confirmed", {}).get("check_output", []) if re.match(r"C\d\d", l)]
+    meta["history"] = (hist or old.get("history") or "missed at first; the check was strengthened and now reports it") + \
+        (" [first run: %s]" % first[-1] if first and "first run" not in (old.get("history") or "") else "")
+elif hist:
+    meta["history"] = hist
 json.dump(meta, open(f"{dst}/meta.json", "w"), indent=1)
 print(dst, "caught" if meta["caught"] else "MISSED", lines[-1:] )
